@@ -63,6 +63,13 @@ def d1_inventory(chk, F: Facts, pid="C03", only_regions=None):
                      f"({len(ss)} site(s): {', '.join(s['where'] for s in ss)})")
             continue
         e = table.get((region, kind, detail))
+        if e is None and kind in ("unreachable", "panic", "assert", "debug_assert", "assert_eq", "assert_ne", "debug_assert_eq", "debug_assert_ne"):
+            # `detail` of a panic-family site is the outermost macro it is written in: the same reviewed `unreachable!()` taken out of
+            # (or put into) a local macro_rules! keeps its review as long as the function has no more sites of that kind than reviewed
+            cands = [v for (r_, k_, d_), v in table.items() if r_ == region and k_ == kind]
+            total = sum(len(x) for (r_, k_, d_), x in groups.items() if r_ == region and k_ == kind)
+            if cands and total <= sum(v["count"] for v in cands):
+                e = dict(cands[0], count=max(len(ss), cands[0]["count"]))
         if e is None:
             chk.fail(rule, key, where,
                      f"unreviewed failure site: {kind} on `{detail}` in {region} ({len(ss)} site(s): {', '.join(s['where'] for s in ss)})",
@@ -354,6 +361,34 @@ def d4_index(chk, F, pid="C03", only_regions=None):
             ea = table.get((region, alt))
             if ea is not None and len(ss) + len(groups.get((region, alt), [])) <= ea["count"]:
                 e = ea
+        if e is None and kind in ("slice:vec", "slice:str"):
+            # `a.split_at(i)` and `(&a[..i], &a[i..])` are the same cut: a reviewed split_at whose index is machine-checked to come
+            # from a search on the container (argfrom) covers range slices of that function whose bounds come from the same search
+            # (for token slices also `i + const`: position() < len, so i + 1 <= len; never for strings — char boundaries)
+            sa = table.get((region, "call:slice::split_at" if kind == "slice:vec" else "call:str::split_at"))
+            reqs = [r for r in (sa or {}).get("requires", []) if r.startswith("argfrom:")]
+            if sa is not None and reqs and not groups.get((region, sa["kind"])) and len(ss) <= 2 * sa["count"]:
+                alts = reqs[0].split("|", 1)[1].split(",")
+                def bound_ok(x):
+                    f_ = F.funcs[x["func"]]
+                    t_ = f_.blocks[x["block"]]["term"]
+                    if len(t_.get("args", [])) < 2:
+                        return False
+                    e_ = resolve(f_, t_["args"][1])
+                    calls = [n[1] for n in walk(e_) if n[0] == "call"]
+                    bins = [n for n in walk(e_) if n[0] == "bin"]
+                    arith_ok = all(n[1].startswith("Add") and (n[2][0] == "const" or n[3][0] == "const") for n in bins) and (kind == "slice:vec" or not bins)
+                    return arith_ok and any(_suffix(c, a) for c in calls for a in alts)
+                if all(bound_ok(x) for x in ss):
+                    e = dict(sa, count=len(ss), requires=[], reason=sa["reason"] + " (written as range slices with the same index)")
+        if e is None and kind in ("call:slice::split_at", "call:str::split_at"):
+            # the converse: reviewed range slices `a[..i]` / `a[i..]` with a machine-checked index rewritten as one `a.split_at(i)`
+            sk = "slice:vec" if kind == "call:slice::split_at" else "slice:str"
+            sl = table.get((region, sk))
+            reqs = [r for r in (sl or {}).get("requires", []) if r.startswith("argfrom:")]
+            if sl is not None and reqs and 2 * len(ss) + len(groups.get((region, sk), [])) <= sl["count"]:
+                if all(check_requirement(F, F.funcs[x["func"]], x["block"], "argfrom:1|" + reqs[0].split("|", 1)[1])[0] for x in ss):
+                    e = dict(sl, kind=kind, count=len(ss), requires=[], reason=sl["reason"] + " (written as split_at with the same index)")
         if e is None:
             chk.fail(rule, key, where, f"unreviewed {kind} indexing in {region} ({len(ss)} site(s): {', '.join(x['where'] for x in ss)}): "
                      "an out-of-range index or a non-boundary string slice panics")
@@ -561,6 +596,38 @@ def acyclic_without(f, scc, K):
     return True, None
 
 
+def loop_var_name(f, var):
+    """A loop variable of a table row: its debug name, or `@arg<n>(<callee suffix>)` = the named local handed (through
+    temporaries and reborrows) as argument n to the call of that callee — so the row survives a rename of the variable."""
+    m = re.match(r"@arg(\d+)\((.*)\)$", var)
+    if not m:
+        return var
+    n, suffix = int(m.group(1)), m.group(2)
+    for b, t in f.calls():
+        if not (_suffix(callee_key(t) or "", suffix) or _suffix(callee_def(t) or "", suffix)) or len(t.get("args", [])) <= n:
+            continue
+        pl = t["args"][n].get("copy") or t["args"][n].get("move")
+        for _ in range(8):
+            if pl is None:
+                break
+            name = f.local_name(pl["l"])
+            if name and not pl["p"]:
+                return name
+            if name and all(p == "*" for p in pl["p"]):
+                return name
+            ds = f.defs.get(pl["l"], [])
+            if len(ds) != 1 or ds[0][0] != "stmt":
+                break
+            rv = ds[0][3]["rv"]
+            if rv["k"] == "use":
+                pl = rv["op"].get("copy") or rv["op"].get("move")
+            elif rv["k"] == "ref":
+                pl = rv["place"]
+            else:
+                break
+    return var
+
+
 def progress_blocks(F, f, scc, spec):
     """Blocks of the SCC matching one progress construct of a table row."""
     K = set()
@@ -575,7 +642,8 @@ def progress_blocks(F, f, scc, spec):
                     if _suffix(ck, suffix) or _suffix(dk, suffix):
                         K.add(b)
             elif p.startswith("assign:"):
-                _, var, op = p.split(":")
+                var, op = p[len("assign:"):].rsplit(":", 1)
+                var = loop_var_name(f, var)
                 for s in f.blocks[b]["stmts"]:
                     if s["k"] == "assign" and not s["place"]["p"] and f.local_name(s["place"]["l"]) == var:
                         if op == "*" or _assign_uses_op(f, s, op):
@@ -911,8 +979,9 @@ def check_lineage(chk, F, rule, ob):
     for scc in f.sccs():
         in_loop |= set(scc)
     n = 0
+    var = loop_var_name(f, ob["var"])
     for i, j, st in f.iter_stmts():
-        if st["k"] == "assign" and not st["place"]["p"] and f.local_name(st["place"]["l"]) == ob["var"] and i in in_loop:
+        if st["k"] == "assign" and not st["place"]["p"] and f.local_name(st["place"]["l"]) == var and i in in_loop:
             n += 1
             e = resolve_rv(f, st["rv"], i)
             ls = leaves(e)
